@@ -8,7 +8,9 @@
    invariant that check carries (C01, C02, C12). *)
 EXTENDS Integers, Sequences, FiniteSets, TLC
 
-CONSTANTS G_CheckRakp2, G_CheckRakp4, G_CheckStatus, G_CheckTag, G_CompareAlgs, G_RefuseNone
+CONSTANTS G_CheckRakp2, G_CheckRakp4, G_CheckStatus, G_CheckTag, G_CompareAlgs, G_RefuseNone,
+          G_KeysPerCall   \* the keyed hashes are built from the credentials of this call (FALSE: kept on the connection
+                          \* from an earlier establishment with other credentials)
 
 AuthAlgs == {"sha1", "md5", "sha256"}
 IntegAlgs == {"none", "sha1-96", "md5-128", "sha256-128"}
@@ -21,21 +23,25 @@ Join(a) == IF a = <<>> THEN "" ELSE Head(a) \o (IF Len(a) > 1 THEN "," ELSE "") 
 H(alg, key, args) == "H[" \o alg \o ";" \o key \o ";" \o Join(args) \o "]"
 Trunc(x) == "trunc(" \o x \o ")"
 
-Mutations == {"none", "wrongPw", "wrongKg",
+\* staleCred: the BMC still holds the credentials of an earlier establishment; the caller now passes new ones
+Mutations == {"none", "wrongPw", "wrongKg", "staleCred",
               "osr.flipSidC", "osr.status", "osr.tag", "osr.trunc", "osr.algWeaker", "osr.algNone", "osr.algUnknown",
               "r2.flipSidM", "r2.flipRc", "r2.flipGuid", "r2.flipAuth", "r2.status", "r2.tag", "r2.trunc",
               "r4.flipIcv", "r4.status", "r4.tag", "r4.trunc"}
 
-VARIABLES pc, mut, prop, useKg, osr, r2, r4, cons, result
-vars == <<pc, mut, prop, useKg, osr, r2, r4, cons, result>>
+VARIABLES pc, mut, prop, useKg, osr, r2, r4, cons, result,
+          hist          \* "fresh": first establishment on the connection; "after-old": one with other credentials preceded it
+vars == <<pc, mut, prop, useKg, osr, r2, r4, cons, result, hist>>
 
 \* what the two sides know
-PwC == "pw"  PwB == IF mut = "wrongPw" THEN "otherpw" ELSE "pw"
-KgC == IF useKg THEN "kg" ELSE PwC
-KgB == IF useKg THEN (IF mut = "wrongKg" THEN "otherkg" ELSE "kg") ELSE PwB
+Cached == ~G_KeysPerCall /\ hist = "after-old"
+PwC == IF Cached THEN "oldpw" ELSE "pw"
+PwB == CASE mut = "wrongPw" -> "otherpw" [] mut = "staleCred" -> "oldpw" [] OTHER -> "pw"
+KgC == IF useKg THEN (IF Cached THEN "oldkg" ELSE "kg") ELSE PwC
+KgB == IF useKg THEN (CASE mut = "wrongKg" -> "otherkg" [] mut = "staleCred" -> "oldkg" [] OTHER -> "kg") ELSE PwB
 SidM == "sidM"  SidC == "sidC"  Rm == "Rm"  Rc == "Rc"  Guid == "guid"  User == "role|ulen|uname"
 
-Init == /\ pc = "osreq" /\ mut \in Mutations /\ useKg \in BOOLEAN
+Init == /\ pc = "osreq" /\ mut \in Mutations /\ useKg \in BOOLEAN /\ hist \in {"fresh", "after-old"}
         /\ prop \in (AuthAlgs \X IntegAlgs \X ConfAlgs)
         /\ osr = [z |-> 0] /\ r2 = [z |-> 0] /\ r4 = [z |-> 0] /\ cons = [z |-> 0] /\ result = "pending"
 
@@ -51,7 +57,7 @@ OpenSession ==
                         [] mut = "osr.algNone" -> <<prop[1], "none", "none">>
                         [] mut = "osr.algUnknown" -> <<"unknown", prop[2], prop[3]>>
                         [] OTHER -> prop]
-  /\ pc' = "osrsp" /\ UNCHANGED <<mut, prop, useKg, r2, r4, cons, result>>
+  /\ pc' = "osrsp" /\ UNCHANGED <<mut, prop, useKg, r2, r4, cons, result, hist>>
 Err(e) == /\ result' = e /\ pc' = "end"
 CheckOsr ==
   /\ pc = "osrsp"
@@ -64,7 +70,7 @@ CheckOsr ==
      ELSE IF (osr.algs[2] = "none" \/ osr.algs[3] = "none")
              THEN (IF G_RefuseNone THEN Err("error") ELSE Err("panic")) /\ UNCHANGED cons   \* nil hasher / nil cipher layer
      ELSE /\ cons' = [algs |-> osr.algs, sidC |-> osr.sidC] /\ pc' = "rakp1" /\ UNCHANGED result
-  /\ UNCHANGED <<mut, prop, useKg, osr, r2, r4>>
+  /\ UNCHANGED <<mut, prop, useKg, osr, r2, r4, hist>>
 \* 3-4: RAKP 1 / 2 ; the BMC computes with its own view (true SidC, SidM, its password)
 Rakp12 ==
   /\ pc = "rakp1"
@@ -77,7 +83,7 @@ Rakp12 ==
                rc |-> IF mut = "r2.flipRc" THEN Flip(Rc) ELSE Rc,
                guid |-> IF mut = "r2.flipGuid" THEN Flip(Guid) ELSE Guid,
                auth |-> IF mut = "r2.flipAuth" THEN Flip(auth) ELSE auth]
-  /\ pc' = "chk2" /\ UNCHANGED <<mut, prop, useKg, osr, r4, cons, result>>
+  /\ pc' = "chk2" /\ UNCHANGED <<mut, prop, useKg, osr, r4, cons, result, hist>>
 CheckRakp2 ==
   /\ pc = "chk2"
   /\ LET alg == cons.algs[1]
@@ -87,7 +93,7 @@ CheckRakp2 ==
         ELSE IF G_CheckStatus /\ r2.status # "ok" THEN Err("error")
         ELSE IF G_CheckRakp2 /\ r2.auth # want THEN Err("ErrIncorrectPassword")
         ELSE pc' = "rakp3" /\ UNCHANGED result
-  /\ UNCHANGED <<mut, prop, useKg, osr, r2, r4, cons>>
+  /\ UNCHANGED <<mut, prop, useKg, osr, r2, r4, cons, hist>>
 \* 5-6: RAKP 3 / 4 ; the (possibly dishonest) BMC answers regardless
 Rakp34 ==
   /\ pc = "rakp3"
@@ -99,7 +105,7 @@ Rakp34 ==
                trunc |-> mut = "r4.trunc",
                icv |-> IF mut = "r4.flipIcv" THEN Flip(icv) ELSE icv,
                sikB |-> sikB]
-  /\ pc' = "chk4" /\ UNCHANGED <<mut, prop, useKg, osr, r2, cons, result>>
+  /\ pc' = "chk4" /\ UNCHANGED <<mut, prop, useKg, osr, r2, cons, result, hist>>
 CheckRakp4 ==
   /\ pc = "chk4"
   /\ LET alg == cons.algs[1]
@@ -110,7 +116,7 @@ CheckRakp4 ==
         ELSE IF G_CheckStatus /\ r4.status # "ok" THEN Err("error") /\ UNCHANGED cons
         ELSE IF G_CheckRakp4 /\ r4.icv # want THEN Err("error") /\ UNCHANGED cons
         ELSE /\ result' = "session" /\ pc' = "end" /\ cons' = [cons EXCEPT !.algs = cons.algs] @@ [sik |-> sikC]
-  /\ UNCHANGED <<mut, prop, useKg, osr, r2, r4>>
+  /\ UNCHANGED <<mut, prop, useKg, osr, r2, r4, hist>>
 Next == OpenSession \/ CheckOsr \/ Rakp12 \/ CheckRakp2 \/ Rakp34 \/ CheckRakp4
 Spec == Init /\ [][Next]_vars
 
@@ -121,7 +127,7 @@ C01_HonestSupportedSucceeds == (pc = "end" /\ mut = "none" /\ Supported(prop)) =
 \* a mutation that leaves the transcript unchanged is not a mutation
 Effective == /\ mut # "none" /\ ~(mut = "wrongKg" /\ ~useKg) /\ ~(mut = "osr.algWeaker" /\ Weaker(prop) = prop)
 C02_OnlyIfAuthentic == Established => ~Effective
-C02_IncorrectPassword == (pc = "end" /\ Supported(prop) /\ mut \in {"wrongPw", "r2.flipSidM", "r2.flipRc", "r2.flipGuid", "r2.flipAuth", "osr.flipSidC"})
+C02_IncorrectPassword == (pc = "end" /\ Supported(prop) /\ mut \in {"wrongPw", "staleCred", "r2.flipSidM", "r2.flipRc", "r2.flipGuid", "r2.flipAuth", "osr.flipSidC"})
                             => result = "ErrIncorrectPassword"
 C12_ConfirmedExactly == Established => cons.algs = prop /\ Supported(prop)
 C12_NeverPanics == result # "panic"
